@@ -27,7 +27,7 @@ PROPS = {
         "quick_runs": {"C06": 4000},
         "thorough_runs": {"C06": 600000},
         "thorough_wall": 900,
-        "rule": "each run = one generated inbound history (1-15 steps from {12 Logon variants, Heartbeat, TestRequest, ResendRequest, Logout, "
+        "rule": "each run = one generated inbound history (1-15 steps from {12 Logon variants (the non-numeric interval drawn from 12 kinds: letters, fraction, exponent, hex, separator, lone sign, digit strings that wrap to an acceptable value modulo 2^64 / 2^65), Heartbeat, TestRequest, ResendRequest, Logout, "
                 "application, unknown type, local send, local logout, idle}) x role x heartbeat limits x buffer size x initiator credentials {none, both, user only, password only} x seeded schedule, checked step "
                 "by step against the logon reference model; distinct = distinct context-switch-sequence hash; non-trivial = at least one preemption "
                 "of a runnable task or one injected fault happened in the run",
@@ -68,7 +68,7 @@ PROPS = {
         "thorough_runs": {"C16": 500000},
         "thorough_wall": 900,
         "rule": "each run = session state (waiting for logon / logged on / TestRequest outstanding / logout sent) x role x buffer x interval, then "
-                "1-5 invalid administrative messages from {A,5,0,1,2} x {wrong CheckSum, wrong BodyLength, non-numeric 108/7/16, non-numeric 34, "
+                "1-5 invalid administrative messages from {A,5,0,1,2} x {wrong CheckSum, wrong BodyLength, non-numeric 108/7/16, non-numeric 34 (12 kinds of non-numeric text each: letters, fraction, exponent, hex, separator, lone sign, digit strings that wrap to the acceptable value modulo 2^64 / 2^65), "
                 "missing 34, not permitted in this state}, each settled and compared with the model (one Reject, 45 or 371=34, state unchanged, contexts "
                 "alive), then valid follow-up traffic; distinct = distinct context-switch-sequence hash; non-trivial = a preemption happened; "
                 "model_states_visited lists the (type, damage, state) triples reached",
@@ -96,10 +96,10 @@ PROPS = {
         "thorough_runs": {"C15": 400000},
         "thorough_wall": 900,
         "rule": "each run = a logged-on session (role x buffer x interval x CloseTimeout in {0,1ms,1s,30s}) ended by {peer Logout, local Logout then the "
-                "peer's answer after a generated delay, local Stop with the peer's answer at {same instant, 1 ms, CloseTimeout-1ms, a generated time, never}}, optionally begun while the library's own TestRequest is outstanding, with other inbound traffic between Stop and the answer, with an application event handler that returns false; local calls run on their own task and must return; "
+                "peer's answer after a generated delay, local Stop with the peer's answer at {same instant, 1 ms, CloseTimeout-1ms, a generated time, never}}, optionally begun while the library's own TestRequest is outstanding, with other inbound traffic between Stop and the answer, with an application event handler that returns false, or (a third of the local endings) with a reactive peer task that answers the Logout the moment it appears on the wire, so that the answer can be dispatched before Logout()/Stop() has returned; local calls run on their own task and must return; "
                 "oracle counts Logouts on the wire, EventLogout, IsLogged and the exact simulated instant at which Session.Context() is cancelled; distinct = "
                 "distinct context-switch-sequence hash; non-trivial = a preemption happened; model_states_visited lists (answer mode, CloseTimeout) pairs",
-        "mandatory_probes": ["peer_logout", "local_logout", "stop_deadline_path", "stop_answer_path"],
+        "mandatory_probes": ["peer_logout", "local_logout", "stop_deadline_path", "stop_answer_path", "reactive_peer_answer"],
         "assumptions": ASSUME,
     },
     "C19": {
@@ -139,11 +139,11 @@ PROPS = {
         "thorough_runs": {"C05": 300000},
         "thorough_wall": 900,
         "rule": "each run = role x buffer {0,1,10} x interval 1-3 s x delay mode (none / yields / fake-time sleeps inside counter store, message store and outgoing "
-                "handler) x 1-8 concurrent sender tasks x 1-30 messages (burst / ms apart / around heartbeat periods) x 0-7 inbound TestRequests and damaged Heartbeats "
+                "handler) x 1-8 concurrent sender tasks (a third of them sending one message object again and again with a new identifier) x 1-30 messages (burst / ms apart / around heartbeat periods) x 0-7 inbound TestRequests and damaged Heartbeats "
                 "(replies and Rejects originate on the inbound goroutine) + timer heartbeats, 30% of runs with a second connection and Session over the same counter store; "
                 "oracle on the peer-side capture split by the independent tokenizer: 34 = start+k, 49/56, 52 format and range; distinct = distinct context-switch-sequence hash; "
                 "non-trivial = a preemption happened",
-        "mandatory_probes": ["concurrent_senders", "library_heartbeats_interleaved", "reject_raced", "continued_from_stored_counter"],
+        "mandatory_probes": ["concurrent_senders", "library_heartbeats_interleaved", "reject_raced", "continued_from_stored_counter", "message_object_reused"],
         "assumptions": ASSUME,
     },
     "C08": {
